@@ -39,4 +39,14 @@ CHECKS = {
                  "over-long / huge-length mutation of well-formed fields and random 64-bit values and byte strings, go through the real plenccore functions and "
                  "TLC judges each result (error or in-range length allowed by SkipAllowed, never a panic / hang / over-run).",
          "note": TB + " Exhausting all 2^32 values is beyond TLC (about 7k judged events/s per worker): boundary classes are exhaustive, the rest is random."},
+ "C03": {"technique": "TLA+ Decode (frame walk, skip, merge) checked against an independent Project definition in TLC + trace validation of cross-type decodes",
+         "text": "MCEvolve: for S over one kind per wire type / container form and S' obtained by removal, reorder, rename and addition (top level, nested, in a "
+                 "slice) TLC checks Decode(S', Encode(S,v), prior) = Project(...) on the model; the same cases and random derived types are executed on the "
+                 "real library (marshal as S, unmarshal into a pre-populated S') and TLC judges the result against Decode of the recorded bytes and prior.",
+         "note": TB},
+ "C10": {"technique": "TLA+ Decode(config, type, bytes, prior) as the step relation of Unmarshal, trace validation of histories on shared instances",
+         "text": "Unmarshal into pre-populated targets (longer / shorter slices with stale elements beyond len, overlapping map keys, non-nil pointers, nested) "
+                 "is judged against the model's merge rules; sessions of 50 calls share one Plenc instance so pools, scratch keys, interning tables and "
+                 "registries carry history, and ordinary round trips into fresh variables on such instances must equal the history-free result.",
+         "note": TB + " Nil-vs-empty of a re-used slice that ends up empty is left open by the statement and not compared."},
 }
